@@ -736,8 +736,9 @@ func (x *exec) step(ev string) *reply {
 			// The resources the runtime itself asks for are deliberately not merged into the told-view:
 			// the property speaks of what the plugin told the runtime, and the cache does not record them either.
 			c.req = u
+			x.applyUpdates(ev, "update", rp.updates, "")
 		}
-		x.applyUpdates(ev, "update", rp.updates, "")
+		// an error reply carries no payload: whatever the handler returned next to the error never reaches the runtime
 	case "stop":
 		c := w.ctr(f[1])
 		rp.target = c
@@ -749,7 +750,9 @@ func (x *exec) step(ev string) *reply {
 		if c.live() {
 			c.life = lifeStopped
 		}
-		x.applyUpdates(ev, "update", rp.updates, "")
+		if rp.err == nil {
+			x.applyUpdates(ev, "update", rp.updates, "")
+		}
 	case "remove":
 		c := w.ctr(f[1])
 		rp.target = c
@@ -765,7 +768,7 @@ func (x *exec) step(ev string) *reply {
 		}
 		guard(func() { rp.updates, rp.err = p.Synchronize(ctx, pods, ctrs) })
 		inFlight()
-		if rp.panic == "" {
+		if rp.panic == "" && rp.err == nil {
 			x.applyUpdates(ev, "update", rp.updates, "")
 		}
 	case "colddone":
@@ -885,7 +888,7 @@ func (x *exec) step(ev string) *reply {
 		}
 		pods, ctrs := x.runtimeLists()
 		guard(func() { rp.updates, rp.err = x.in.m.nri.Synchronize(ctx, pods, ctrs) })
-		if rp.panic == "" {
+		if rp.panic == "" && rp.err == nil {
 			x.applyUpdates(ev, "update", rp.updates, "")
 		}
 	default:
